@@ -659,15 +659,48 @@ func (fi *FnInfo) structLitFields(v ssa.Value) map[string]*Term {
 	if al == nil {
 		return nil
 	}
+	return fi.allocFields(al, 0)
+}
+
+// allocFields: field stores into a local struct; a whole-value store from another local struct
+// (x := T{...} compiled through a temporary) contributes that struct's fields. A field stored more
+// than once has no single value: it is reported as an opaque term, so provenance rules fail closed.
+func (fi *FnInfo) allocFields(al *ssa.Alloc, depth int) map[string]*Term {
 	out := map[string]*Term{}
-	for _, r := range *al.Referrers() {
-		fa, ok := r.(*ssa.FieldAddr)
-		if !ok {
-			continue
+	count := map[string]int{}
+	set := func(name string, t *Term) {
+		count[name]++
+		if count[name] > 1 {
+			out[name] = fi.uniq(TVar, "multi-store:"+name, al)
+			return
 		}
-		for _, r2 := range *fa.Referrers() {
-			if st, ok := r2.(*ssa.Store); ok && st.Addr == fa {
-				out[fieldName(al.Type(), fa.Field)] = fi.T(st.Val)
+		out[name] = t
+	}
+	if _, isStruct := deref(al.Type()).Underlying().(*types.Struct); !isStruct {
+		return out
+	}
+	for _, r := range *al.Referrers() {
+		switch x := r.(type) {
+		case *ssa.FieldAddr:
+			for _, r2 := range *x.Referrers() {
+				if st, ok := r2.(*ssa.Store); ok && st.Addr == x {
+					set(fieldName(al.Type(), x.Field), fi.T(st.Val))
+				}
+			}
+		case *ssa.Store:
+			if x.Addr != ssa.Value(al) {
+				continue
+			}
+			src, ok := x.Val.(*ssa.UnOp)
+			var al2 *ssa.Alloc
+			if ok && src.Op == token.MUL {
+				al2, _ = src.X.(*ssa.Alloc)
+			}
+			if al2 == nil || depth > 2 {
+				return nil // initialised from a value this function did not build
+			}
+			for k, t := range fi.allocFields(al2, depth+1) {
+				set(k, t)
 			}
 		}
 	}
@@ -892,4 +925,99 @@ func (p *Prog) forallBefore(fn *ssa.Function, r *ssa.Return, conds []ResultCond,
 		}
 	}
 	return false
+}
+
+// ---- success trace ----
+
+type traceStep struct {
+	T    *Term // the call, as a term over the root function's parameters
+	Call *ssa.Call
+	Fn   *ssa.Function // function containing the call
+	// Covers: for a helper call listed after its own trace, the number of preceding steps that are
+	// the helper's (the helper succeeded iff they all did)
+	Covers int
+}
+
+// successTrace: the error-returning calls that have succeeded, in order, on every path to every
+// successful (error == nil possible) return of fn. Calls to module helpers are replaced by the
+// helper's own trace (its parameters substituted by the arguments), so a step keeps being found
+// after it was extracted into a helper. Sound for "must have happened before success": a call is
+// listed only if each success return either lies behind the call's err == nil edge or returns the
+// call's error directly.
+func (p *Prog) successTrace(fn *ssa.Function, depth int) []traceStep {
+	fn = origin(fn)
+	if fn == nil || fn.Blocks == nil || depth > 3 {
+		return nil
+	}
+	fi := p.Info(fn)
+	sig := fn.Signature.Results()
+	if sig.Len() == 0 || !isErrorType(sig.At(sig.Len()-1).Type()) {
+		return nil
+	}
+	cond := []ResultCond{{sig.Len() - 1, "nil"}}
+	var succ []*ssa.Return
+	for _, r := range returnsOf(fn) {
+		if fi.retCompatible(r, cond) != no {
+			succ = append(succ, r)
+		}
+	}
+	if len(succ) == 0 {
+		return nil
+	}
+	var calls []*ssa.Call
+	for _, b := range fn.Blocks {
+		for _, in := range b.Instrs {
+			call, ok := in.(*ssa.Call)
+			if !ok {
+				continue
+			}
+			et := fi.errResultTerm(call)
+			if et == nil || !isErrorType(et.Typ) {
+				continue
+			}
+			all := true
+			for _, r := range succ {
+				direct := r.Results[len(r.Results)-1] == ssa.Value(call) && call.Common().Signature().Results().Len() == 1
+				if !direct && !fi.mustPassSuccess(call, r.Block()) {
+					all = false
+					break
+				}
+			}
+			if all {
+				calls = append(calls, call)
+			}
+		}
+	}
+	sort.SliceStable(calls, func(i, j int) bool { return instrDominates(calls[i], calls[j]) && calls[i] != calls[j] })
+	var out []traceStep
+	var prev *ssa.Call
+	for _, call := range calls {
+		if prev != nil && !(instrDominates(prev, call) && fi.mustPassSuccess(prev, call.Block())) {
+			continue // not ordered after the previous step on every path: not part of the chain
+		}
+		prev = call
+		var sub []traceStep
+		if h := call.Common().StaticCallee(); h != nil && inModule(h) && h.Blocks != nil && !call.Common().IsInvoke() && !isGeneratedFile(p.fileOf(h)) {
+			m := map[string]*Term{}
+			ho := origin(h)
+			for i, prm := range ho.Params {
+				if i < len(call.Common().Args) {
+					m[prm.Name()] = fi.T(call.Common().Args[i])
+				}
+			}
+			if ho.Parent() != nil {
+				// a closure called in its defining function: its free variables are the parent's locals
+				for _, st := range p.successTrace(ho, depth+1) {
+					sub = append(sub, traceStep{st.T.freeToParams().subst(m), st.Call, st.Fn, st.Covers})
+				}
+			} else {
+				for _, st := range p.successTrace(ho, depth+1) {
+					sub = append(sub, traceStep{st.T.subst(m), st.Call, st.Fn, st.Covers})
+				}
+			}
+		}
+		out = append(out, sub...)
+		out = append(out, traceStep{fi.T(call), call, fn, len(sub)})
+	}
+	return out
 }
